@@ -42,6 +42,8 @@ def gen_cases(tier, seed):
         cases += mapcases.nasty_quick_cases(rng, 1600)
         cases += mapcases.random_large_cases(rng, 1600, max_leaves=20,
                                              max_cells=80)
+    cases += mapcases.chunk_name_order_cases(
+        rng, 2 if tier == 'quick' else 8)
     for i, c in enumerate(cases):
         c['with_csv'] = True
         c['with_hdf5'] = True
